@@ -73,7 +73,14 @@ class Norm:
         if k == 'arr': return ('vec', tuple(N(x) for x in t[1]))
         if k == 'upd':
             return ('upd', N(t[1]), tuple((s, N(v)) for s, v in t[2]))
-        if k == 'cast': return N(t[1])
+        if k == 'cast':
+            # widening / same-width integer casts are value-preserving and erased; a cast to a narrower integer type truncates
+            ty = t[2]
+            if ty in ('u8', 'u16', 'u32', 'u64', 'usize', 'i8', 'i16', 'i32', 'i64', 'isize', 'f32', 'f64'):
+                inner = N(t[1])
+                if inner[0] == 'int': return inner
+                return ('trunc', inner, ty)
+            return N(t[1])
         if k == 'bin':
             op = {'Add': 'add', 'Sub': 'sub', 'Mul': 'mul', 'Div': 'div', 'Rem': 'rem'}.get(t[1], t[1])
             return (op, N(t[2]), N(t[3]))
@@ -222,6 +229,7 @@ def P(t, depth=0):
     if k == 'f': return '%s.%s' % (P(t[1]), t[2])
     if k == 'v': return '(%s as %s).%s' % (P(t[1]), t[2], t[3])
     if k == 'dec': return 'dec(%s)' % P(t[1])
+    if k == 'trunc': return '(%s as %s)' % (P(t[1]), t[2])
     if k in ('add', 'sub', 'mul', 'div', 'rem', 'pow'):
         sym = {'add': '+', 'sub': '-', 'mul': '*', 'div': '/', 'rem': '%', 'pow': '^'}[k]
         return '(%s %s %s)' % (P(t[1]), sym, P(t[2]))
